@@ -129,6 +129,10 @@ func builtinGlobalParseInt(call FunctionCall) Value {
 		}
 		value *= -1
 	}
+	if value > 1<<53 || value < -(1<<53) {
+		// Not every integer beyond 2^53 is a Number value: round to the double it denotes.
+		return float64Value(float64(value))
+	}
 
 	return int64Value(value)
 }
